@@ -357,7 +357,7 @@ def o_c12(tr):
                 off, d = f["offset"], f["data"]
                 end = off + len(d)
                 if k in reset_sent:
-                    if len(d) == 0 and off == 0 and not f["fin"]:
+                    if len(d) == 0 and off == 0 and not f["fin"] and open_notify_is_retransmission(tr, ep, sid, r.idx):
                         bad.append(("e2e:c12:stream-after-reset:empty-open-notify", f"endpoint {ep} re-sent the empty stream-open STREAM frame on {sid} after its RESET_STREAM (packet {r.pn})"))
                     else:
                         bad.append(("e2e:c12:stream-after-reset", f"endpoint {ep} sent STREAM on {sid} after RESET_STREAM (packet {r.pn})"))
@@ -404,6 +404,30 @@ def o_c12(tr):
             prev_t = r.t
     bad += close_copies(tr, closed_at, client_addr)
     return bad
+
+
+_ACK_RX_RE = re.compile(r"packet_header: OneRtt.*ack_range: (\d+)\.\.=(\d+)")
+
+
+def open_notify_is_retransmission(tr, ep, sid, idx):
+    """the known finding F9 is about RETRANSMISSION: the empty stream-open STREAM frame of `sid` was already sent in an
+    earlier packet that the peer has not acknowledged when the frame goes out again (at record `idx`). An empty STREAM
+    frame on a reset stream that is not such a retransmission (no earlier copy, or every earlier copy acknowledged) is a
+    different behaviour and is not covered by the finding."""
+    earlier = [r.pn for r in tr.recs if r.idx < idx and r.kind == "txp" and r.ep == ep and r.space == "app" and
+               any(f["type"] == "STREAM" and f["id"] == sid and f["offset"] == 0 and len(f["data"]) == 0 and not f["fin"] for f in r.frames)]
+    if not earlier:
+        return False
+    acked = set()
+    for r in tr.recs:
+        if r.idx >= idx:
+            break
+        if r.kind == "ev" and r.ep == ep and r.name == "recovery:ack_range_received":
+            m = _ACK_RX_RE.search(r.text)
+            if m:
+                lo, hi = int(m.group(1)), int(m.group(2))
+                acked.update(pn for pn in earlier if lo <= pn <= hi)
+    return any(pn not in acked for pn in earlier)
 
 
 _ENDPOINT_ACTIONS = ("deliver", "drop", "drop-small", "blackhole", "mtu-drop", "corrupt-flip", "corrupt-truncate", "corrupt-splice")
